@@ -17,8 +17,6 @@ import (
 
 // ProxyRequestToEndpointsWithRetry proxies the request with retry logic for connection failures
 func (s *Service) ProxyRequestToEndpointsWithRetry(ctx context.Context, w http.ResponseWriter, r *http.Request, endpoints []*domain.Endpoint, stats *ports.RequestStats, rlog logger.StyledLogger) error {
-	s.IncrementRequests()
-
 	// Use context logger if available
 	ctxLogger := middleware.GetLogger(ctx)
 	if ctxLogger != nil {
@@ -36,6 +34,7 @@ func (s *Service) ProxyRequestToEndpointsWithRetry(ctx context.Context, w http.R
 		} else {
 			rlog.Error("no healthy endpoints available")
 		}
+		s.IncrementRequests()
 		s.RecordFailure(ctx, nil, time.Since(stats.StartTime), common.ErrNoHealthyEndpoints)
 		return common.ErrNoHealthyEndpoints
 	}
@@ -51,6 +50,8 @@ func (s *Service) ProxyRequestToEndpointsWithRetry(ctx context.Context, w http.R
 
 // proxyToSingleEndpoint handles proxying to a single endpoint with Olla's optimizations
 func (s *Service) proxyToSingleEndpoint(ctx context.Context, w http.ResponseWriter, r *http.Request, endpoint *domain.Endpoint, stats *ports.RequestStats, rlog logger.StyledLogger) error {
+	// one unit per attempt, like the success/failure counters: total = successful + failed
+	s.IncrementRequests()
 	stats.EndpointName = endpoint.Name
 
 	// Check circuit breaker first
